@@ -3,4 +3,4 @@
 cd /verif
 out=$(python3 tools/vx.py "$1" /tmp/vx-out 2>&1 | head -2)
 case "$out" in *LOST-ANCHOR*|*Traceback*|*Error*) echo "$out"; exit 2;; esac
-cd /tmp/vx-out && verus "$1".rs --multiple-errors 50 --rlimit 40 --num-threads 8 2>&1 | grep -v '^\s*$' | head -${2:-80}
+cd /tmp/vx-out && verus "$1".rs --multiple-errors 50 --rlimit 100 --num-threads 8 2>&1 | grep -v '^\s*$' | head -${2:-80}
